@@ -25,7 +25,7 @@ PROG = ["        NAM PROG", "        ORG $0E00", "START   LDA #1", "        RTS"
 PROG_BYTES = bytes([0x86, 0x01, 0x39])
 SRC_FILE = c07.fspec("ML", 40, "SRCFILE", pat="ramp7", load=0x3000, exec_=0x3005)
 
-TARGETS = ["absent", "empty", "cas1", "cas2", "dskblank", "dsk1", "rawbin", "bytes", "bytes553c", "casbig", "zeros", "all55", "allFF", "casodd", "dsk67", "dskholes", "dskemptyml"]
+TARGETS = ["absent", "empty", "cas1", "cas2", "dskblank", "dsk1", "rawbin", "bytes", "bytes553c", "casbig", "zeros", "all55", "allFF", "casodd", "dsk67", "dskholes", "dskemptyml", "casbig00"]
 SWITCHES = ["bin", "cas", "dsk"]
 CLIS = ["asm", "fu.cas", "fu.dsk"]
 
@@ -53,6 +53,13 @@ def make_target(kind):
     if kind == "dsk67":       # a valid disk whose file runs through the first and the last granule (chain 67 -> 0 -> 33)
         return dskfs.write([{"name": "LASTGRAN", "ext": "BIN", "type": 2, "dtype": 0, "stream": dskfs.make_stream("ml", C.pattern(5000, "ramp"), 0x1000, 0x1000),
                              "chain": [67, 0, 33]}])
+    if kind == "casbig00":    # a tape longer than a disk image whose bytes at the 72 directory-entry offsets are all $00/$FF (blank screen dumps)
+        for first in range(61440, 61440 + 400):
+            b = bytes(tape.write([dict(name="SCREEN{}".format(i), type=2, dtype=0, load=0x0E00, exec=0x0E00, data=bytes(n))
+                                  for i, n in enumerate((first, 61440, 61440))]))
+            if len(b) > dskfs.IMAGE_SIZE and all(x in (0x00, 0xFF) for x in b[dskfs.DIR_OFF:dskfs.DIR_OFF + 72 * 32:32]):
+                return b
+        raise AssertionError("no such tape")
     if kind == "dskemptyml":  # a valid disk holding a machine-language file without data (what assembling a program that emits no bytes leaves)
         return dskfs.write([{"name": "NOBYTES", "ext": "BIN", "type": 2, "dtype": 0, "stream": dskfs.make_stream("ml", b"", 0x0E00, 0x0E00), "chain": [33]},
                             {"name": "SECOND", "ext": "BIN", "type": 2, "dtype": 0, "stream": dskfs.make_stream("ml", C.pattern(20, "ramp"), 0x1000, 0x1000), "chain": [32]}])
